@@ -299,14 +299,10 @@ func (sc *SpecCtx) eval(x *Sx) specVal {
 	case "tyid":
 		// (tyid *pkg.Type) / (tyid pkg.Type): the dynamic-type id of a named (pointer) type
 		name := args[0].Atom
-		ptr := strings.HasPrefix(name, "*")
-		typ := t.P.typeByName(strings.TrimPrefix(name, "*"))
+		typ := t.P.typeExpr(name)
 		if typ == nil {
 			t.errorf("spec: unknown type %s in tyid", name)
 			return specVal{"0", nil}
-		}
-		if ptr {
-			typ = types.NewPointer(typ)
 		}
 		return specVal{env.TyIDTerm(typ), nil}
 	case "global":
@@ -324,13 +320,17 @@ func (sc *SpecCtx) eval(x *Sx) specVal {
 		return specVal{"vnil", nil}
 	case "cast":
 		// (cast e pkg.Type): e is a reference to a value of the named struct type
+		// (cast e map[K]V) / (cast e []T) / (cast e *T): e has that type
 		v := sc.eval(args[0])
-		typ := t.P.typeByName(args[1].Atom)
+		typ := t.P.typeExpr(args[1].Atom)
 		if typ == nil {
 			t.errorf("spec: unknown type %s in cast", args[1].Atom)
 			return v
 		}
-		return specVal{v.term, types.NewPointer(typ)}
+		if _, named := typ.(*types.Named); named {
+			typ = types.NewPointer(typ)
+		}
+		return specVal{v.term, typ}
 	case "reveal":
 		return specVal{revealInstance(sc, args[0]), nil}
 	case "_", "as":
